@@ -134,6 +134,9 @@ func readerMatrix(pj *simdjson.ParsedJson, want []*ref.Value, o readerOpts) (out
 					if err != nil {
 						return fmt.Errorf("Array.MarshalJSON: %w", err)
 					}
+					if again, err := a.MarshalJSON(); err != nil || !bytes.Equal(again, text) {
+						return fmt.Errorf("Array.MarshalJSON a second time on the same Array: %v %.80q, first %.80q", err, again, text)
+					}
 					v, _, err := ref.ParseText(text)
 					if err != nil {
 						return fmt.Errorf("Array.MarshalJSON output invalid: %v in %.80q", err, text)
@@ -153,6 +156,9 @@ func readerMatrix(pj *simdjson.ParsedJson, want []*ref.Value, o readerOpts) (out
 					text, err := els.MarshalJSON()
 					if err != nil {
 						return fmt.Errorf("Elements.MarshalJSON: %w", err)
+					}
+					if again, err := els.MarshalJSON(); err != nil || !bytes.Equal(again, text) {
+						return fmt.Errorf("Elements.MarshalJSON a second time on the same Elements: %v %.80q, first %.80q", err, again, text)
 					}
 					v, _, err := ref.ParseText(text)
 					if err != nil {
